@@ -39,7 +39,9 @@ det = sum(1 for r in rows if 'DETECTED' in r)
 out = ['# Seeded changes and the checks that catch them', '',
        'Written by `tools/seed_table.py` from `seeded/RESULTS.txt` (one `tools/seeded.sh` run per seed: demonstration passes on a clean',
        'clone, pinned baseline 350/350 with the patch, demonstration fails with the patch, then the quick tier of the property\'s check',
-       '(and of the checks named in `seeded/<name>/checks`) against the patched clone).', '',
+       '(and of the checks named in `seeded/<name>/checks`) against the patched clone).  Every seed was confirmed that way when it was',
+       'imported; where the last run of a seed skipped the confirmation (`SEEDED_SKIP_CONFIRM=1`, used for re-runs after a check was',
+       'strengthened) its line in RESULTS.txt says `confirmed earlier: ...`.', '',
        '%d seeds, %d detected by the quick tier.' % (n, det), '',
        '| seed | change (from its meta.json) | outcome |', '|---|---|---|'] + rows
 open(os.path.join(root, 'seeded', 'RESULTS.md'), 'w').write('\n'.join(out) + '\n')
